@@ -177,7 +177,51 @@ def _namedtuple(name, fields, defaults=None, **k):
     return RecordClass(name, fields, dict(zip(fields[len(fields) - len(dv):], dv)), True)
 
 
-MODULES = {"collections": ModuleTable({"namedtuple": StubCall(_namedtuple)}), "itertools": ModuleTable({"product": itertools.product, "combinations": itertools.combinations, "chain": itertools.chain, "permutations": itertools.permutations})}
+class _MethodCaller(Stub):
+    """operator.methodcaller(name, *args, **kwargs)"""
+
+    def __init__(self, name, *a, **k):
+        self.name, self.a, self.k = name, a, k
+
+    def _abs_call(self, obj):
+        if not isinstance(self.name, str) or self.name.startswith("__"):
+            raise Unsupported("methodcaller of a dunder method")
+        if not isinstance(obj, (Stub,) + PURE_TYPES):
+            raise Unsupported("methodcaller on " + type(obj).__name__)
+        m = getattr(obj, self.name)
+        if isinstance(m, Stub) and hasattr(m, "_abs_call"):
+            return m._abs_call(*self.a, **self.k)
+        if isinstance(m, StubCall):
+            return m.f(*self.a, **self.k)
+        return m(*self.a, **self.k)
+
+
+class _ItemGetter(Stub):
+    def __init__(self, *keys):
+        self.keys = keys
+
+    def _abs_call(self, obj):
+        vals = [obj[k] for k in self.keys]
+        return vals[0] if len(vals) == 1 else tuple(vals)
+
+
+class _AttrGetter(Stub):
+    def __init__(self, *names):
+        self.names = names
+
+    def _abs_call(self, obj):
+        def get(o, dotted):
+            for part in dotted.split("."):
+                if part.startswith("__") or not isinstance(o, (Stub,) + PURE_TYPES):
+                    raise Unsupported("attrgetter of " + dotted)
+                o = getattr(o, part)
+            return o
+        vals = [get(obj, n) for n in self.names]
+        return vals[0] if len(vals) == 1 else tuple(vals)
+
+
+MODULES = {"operator": ModuleTable({"methodcaller": _MethodCaller, "itemgetter": _ItemGetter, "attrgetter": _AttrGetter}),
+           "collections": ModuleTable({"namedtuple": StubCall(_namedtuple)}), "itertools": ModuleTable({"product": itertools.product, "combinations": itertools.combinations, "chain": itertools.chain, "permutations": itertools.permutations})}
 _BIN = {ast.Add: operator.add, ast.Sub: operator.sub, ast.Mult: operator.mul, ast.Div: operator.truediv, ast.FloorDiv: operator.floordiv,
         ast.Mod: operator.mod, ast.Pow: operator.pow, ast.BitAnd: operator.and_, ast.BitOr: operator.or_, ast.BitXor: operator.xor}
 _CMP = {ast.Eq: operator.eq, ast.NotEq: operator.ne, ast.Lt: operator.lt, ast.LtE: operator.le, ast.Gt: operator.gt, ast.GtE: operator.ge,
@@ -209,6 +253,37 @@ class Env:
 
     def set(self, k: str, v: Any):
         self.vars[k] = v
+
+
+def _is_generator(node) -> bool:
+    todo = list(getattr(node, "body", [])) if not isinstance(node, ast.Lambda) else []
+    while todo:
+        x = todo.pop()
+        if isinstance(x, (ast.FunctionDef, ast.AsyncFunctionDef, ast.Lambda, ast.ClassDef)):
+            continue
+        if isinstance(x, (ast.Yield, ast.YieldFrom)):
+            return True
+        todo.extend(ast.iter_child_nodes(x))
+    return False
+
+
+class _Generated:
+    """What an eagerly run generator function yielded (plus the exception it ended with, if any)."""
+
+    def __init__(self, items, pending):
+        self._items, self._pending, self._i = list(items), pending, 0
+
+    def __iter__(self):
+        return self
+
+    def __next__(self):
+        if self._i < len(self._items):
+            self._i += 1
+            return self._items[self._i - 1]
+        if self._pending is not None:
+            p, self._pending = self._pending, None
+            raise p
+        raise StopIteration
 
 
 class Function:
@@ -248,10 +323,30 @@ class Interp:
                 if di < 0:
                     raise Unsupported(f"missing argument {p}")
                 env.set(p, self.ev(defaults[di], f.env))
+        for p, d in zip(a.kwonlyargs, a.kw_defaults):
+            if p.arg in kwargs:
+                env.set(p.arg, kwargs.pop(p.arg))
+            elif d is not None:
+                env.set(p.arg, self.ev(d, f.env))
+            else:
+                raise Unsupported(f"missing keyword-only argument {p.arg}")
         if kwargs:
             raise Unsupported(f"unexpected keyword arguments {sorted(kwargs)}")
         if isinstance(node, ast.Lambda):
             return self.ev(node.body, env)
+        if _is_generator(node):
+            # a generator function: run eagerly, hand out what it yielded; an exception raised after the first yields is raised when
+            # the consumer gets that far (approximates laziness for consumers such as next(gen, default))
+            got: List[Any] = []
+            env.vars["$yield"] = got
+            pending = None
+            try:
+                self.exec_block(node.body, env)
+            except _Return:
+                pass
+            except InterpRaised as e:
+                pending = e
+            return _Generated(got, pending)
         try:
             self.exec_block(node.body, env)
         except _Return as r:
@@ -477,7 +572,12 @@ class Interp:
                 return base[lo:hi:st]
             k = self.ev(e.slice, env)
             if isinstance(base, PURE_TYPES) or isinstance(base, Stub):
-                return base[k]
+                try:
+                    return base[k]
+                except (KeyError, IndexError) as ex:
+                    if isinstance(base, PURE_TYPES):
+                        raise InterpRaised(type(ex).__name__, str(ex)[:80])
+                    raise
             raise Unsupported("subscript on " + type(base).__name__)
         if isinstance(e, ast.JoinedStr):
             out = ""
@@ -579,6 +679,18 @@ class Interp:
             v = self.ev(e.value, env)
             self.assign(e.target, v, env)
             return v
+        if isinstance(e, ast.Yield):
+            try:
+                env.get("$yield").append(self.ev(e.value, env) if e.value is not None else None)
+            except KeyError:
+                raise Unsupported("yield outside an interpreted generator function")
+            return None
+        if isinstance(e, ast.YieldFrom):
+            try:
+                env.get("$yield").extend(list(self.iterate(self.ev(e.value, env))))
+            except KeyError:
+                raise Unsupported("yield from outside an interpreted generator function")
+            return None
         if isinstance(e, ast.Starred):
             raise Unsupported("starred")
         raise Unsupported(f"expression {type(e).__name__}: {unparse(e)[:60]}")
